@@ -38,7 +38,7 @@ func c25wireSet(nr int) rangeset[packetNumber] {
 		if nr == 4 {
 			older = []packetNumber{0, 63, 64, 16384}
 		}
-		lowest = []packetNumber{0, 7, 1 << 14, 1 << 30, 1 << 61}
+		lowest = []packetNumber{0, 1 << 14, 1 << 30, 1 << 61}
 		firsts = []packetNumber{0, 64, 1 << 30}
 	}
 	seen := make(rangeset[packetNumber], nr)
